@@ -1,7 +1,93 @@
-(* C13 proofs, part 1 *)
+(* C13 proofs, part 1: SetBlock and the non-air counter *)
 From Coq Require Import List Arith NArith ZArith Lia Bool ZifyN ZifyNat ZifyBool.
 From GoMC Require Import Base.Bytes Base.Bits Base.Dec Gen.Consts Model.C05 Model.C06 Model.C11 Model.C13.
 Import ListNotations.
-Open Scope N_scope.
+Open Scope Z_scope.
+Ltac Zify.zify_post_hook ::= Z.div_mod_to_equations.
 
-Lemma hm_bits_24 : hm_bits 24 = 9%Z. Proof. reflexivity. Qed.
+Lemma hm_bits_24 : hm_bits 24 = 9. Proof. reflexivity. Qed.
+
+(* ---------- counting ---------- *)
+Definition cnt (is_air : Z -> bool) (a : list Z) : nat := length (filter (fun v => negb (is_air v)) a).
+Definition one (is_air : Z -> bool) (v : Z) : nat := if is_air v then 0%nat else 1%nat.
+
+Lemma non_air_cnt is_air a : non_air is_air a = Z.of_nat (cnt is_air a).
+Proof. reflexivity. Qed.
+
+Lemma cnt_le is_air a : (cnt is_air a <= length a)%nat.
+Proof.
+  unfold cnt. induction a as [|h t IH]; cbn [filter length]; [lia|].
+  destruct (negb (is_air h)); cbn [length]; lia.
+Qed.
+
+Lemma upd_nth_length {A} (l : list A) n x : length (upd_nth l n x) = length l.
+Proof. revert n; induction l as [|h t IH]; intros [|n]; cbn [upd_nth length]; auto. Qed.
+
+(* a point update changes the count by the old and the new element only *)
+Lemma cnt_upd is_air : forall a n v, (n < length a)%nat ->
+  (cnt is_air (upd_nth a n v) + one is_air (nth n a 0%Z) = cnt is_air a + one is_air v)%nat.
+Proof.
+  unfold cnt, one. induction a as [|h t IH]; intros [|n] v Hn; cbn [length] in Hn; try lia.
+  - cbn [upd_nth nth filter]. destruct (is_air h), (is_air v); cbn [negb length]; lia.
+  - cbn [upd_nth nth filter]. specialize (IH n v ltac:(lia)).
+    destruct (is_air h); cbn [negb length]; lia.
+Qed.
+
+Lemma sx16_u16_small z : -32768 <= z < 32768 -> sx16 (u16 z) = z.
+Proof. intros H. apply sx_wrapu; [reflexivity|]. unfold in_sw. cbn. lia. Qed.
+
+Section Count.
+Variable cont : Type.
+Variable pc_get : cont -> Z -> Z.
+Variable pc_set : cont -> Z -> Z -> cont.
+Variable is_air : Z -> bool.
+Variable abs : cont -> list Z.
+(* what C12 proves of the container across every change of representation *)
+Hypothesis get_abs : forall c i, 0 <= i < Z.of_nat (length (abs c)) -> pc_get c i = nth (Z.to_nat i) (abs c) 0.
+Hypothesis set_abs : forall c i v, 0 <= i < Z.of_nat (length (abs c)) ->
+  abs (pc_set c i v) = upd_nth (abs c) (Z.to_nat i) v.
+
+Definition counted (s : Z * cont) : Prop := fst s = non_air is_air (abs (snd s)).
+Definition op_ok (s : Z * cont) (iv : Z * Z) : Prop := 0 <= fst iv < Z.of_nat (length (abs (snd s))).
+
+Lemma set_block_counted s iv : Z.of_nat (length (abs (snd s))) <= 32767 -> counted s -> op_ok s iv ->
+  counted (set_block cont pc_get pc_set is_air s iv) /\
+  abs (snd (set_block cont pc_get pc_set is_air s iv)) = upd_nth (abs (snd s)) (Z.to_nat (fst iv)) (snd iv).
+Proof.
+  destruct s as [c0 c], iv as [i v]. unfold counted, op_ok. cbn [fst snd]. intros Hl Hc Hi.
+  unfold set_block. cbn [fst snd]. rewrite set_abs by exact Hi. split; [|reflexivity].
+  rewrite get_abs by exact Hi. rewrite !non_air_cnt in *.
+  pose proof (cnt_upd is_air (abs c) (Z.to_nat i) v ltac:(lia)) as E. unfold one in E.
+  pose proof (cnt_le is_air (abs c)) as L1.
+  pose proof (cnt_le is_air (upd_nth (abs c) (Z.to_nat i) v)) as L2. rewrite upd_nth_length in L2.
+  subst c0.
+  destruct (is_air (nth (Z.to_nat i) (abs c) 0)) eqn:Ea, (is_air v) eqn:Ev.
+  - lia.
+  - rewrite sx16_u16_small by lia. lia.
+  - rewrite sx16_u16_small by lia. lia.
+  - rewrite (sx16_u16_small (Z.of_nat (cnt is_air (abs c)) - 1)) by lia.
+    rewrite sx16_u16_small by lia. lia.
+Qed.
+
+(* every history of in-range SetBlock calls: the counter is the number of non-air blocks, and the
+   section holds exactly what the same history of point updates gives *)
+Lemma set_blocks_counted : forall ops s, Z.of_nat (length (abs (snd s))) <= 32767 -> counted s ->
+  Forall (fun iv => 0 <= fst iv < Z.of_nat (length (abs (snd s)))) ops ->
+  counted (set_blocks cont pc_get pc_set is_air s ops) /\
+  abs (snd (set_blocks cont pc_get pc_set is_air s ops)) =
+    fold_left (fun a iv => upd_nth a (Z.to_nat (fst iv)) (snd iv)) ops (abs (snd s)).
+Proof.
+  unfold set_blocks. induction ops as [|iv ops IH]; intros s Hl Hc Hops.
+  - cbn [fold_left]. auto.
+  - inversion Hops as [|? ? Hiv Hrest]; subst. cbn [fold_left].
+    destruct (set_block_counted s iv Hl Hc Hiv) as [Hc' Ha'].
+    specialize (IH (set_block cont pc_get pc_set is_air s iv)).
+    rewrite Ha' in IH. rewrite upd_nth_length in IH. apply IH; auto.
+Qed.
+End Count.
+
+(* the array container satisfies the hypotheses *)
+Lemma arr_get_abs : forall (c : list Z) i, 0 <= i < Z.of_nat (length c) -> arr_get c i = nth (Z.to_nat i) c 0.
+Proof. reflexivity. Qed.
+Lemma arr_set_abs : forall (c : list Z) i v, 0 <= i < Z.of_nat (length c) -> arr_set c i v = upd_nth c (Z.to_nat i) v.
+Proof. reflexivity. Qed.
